@@ -40,6 +40,14 @@ class Opaque:
         return f"<opaque {self.label}>"
 
 
+class LocalFunc:
+    """A function defined inside the evaluated code (def or lambda); called with the evaluator's own semantics."""
+
+    def __init__(self, node, env: Dict[str, Any]):
+        self.node = node
+        self.env = env  # the defining environment, by reference (closures see later assignments, as in Python)
+
+
 class _Break(Exception):
     pass
 
@@ -332,6 +340,8 @@ class Evaluator:
             if v is not NotImplemented:
                 return v
         f = e.func
+        if isinstance(f, ast.Name) and isinstance(self.env.get(f.id), LocalFunc):
+            return self._call_local(self.env[f.id], e)
         if isinstance(f, ast.Name) and f.id == "isinstance" and len(e.args) == 2:
             v = self.eval(e.args[0])
             table = {"bool": bool, "int": int, "float": float, "str": str, "list": list, "dict": dict, "tuple": tuple, "set": set}
@@ -388,6 +398,48 @@ class Evaluator:
                 return Opaque("isinf")
             return math.isinf(a)
         return Opaque(ast.unparse(e)[:40])
+
+    def _call_local(self, lf: "LocalFunc", e: ast.Call):
+        a = lf.node.args
+        if a.vararg or a.kwarg or a.posonlyargs:
+            raise Unknown("local function with *args/**kwargs")
+        names = [x.arg for x in a.args]
+        env = dict(lf.env)
+        defaults = dict(zip(names[len(names) - len(a.defaults):], a.defaults))
+        for x, d in zip(a.kwonlyargs, a.kw_defaults):
+            names.append(x.arg)
+            if d is not None:
+                defaults[x.arg] = d
+        bound: Dict[str, Any] = {}
+        if len(e.args) > len(a.args):
+            raise EvalRaise("TypeError", e)
+        for n, arg in zip([x.arg for x in a.args], e.args):
+            if isinstance(arg, ast.Starred):
+                raise Unknown("starred argument")
+            bound[n] = self.eval(arg)
+        for k in e.keywords:
+            if k.arg is None or k.arg not in names or k.arg in bound:
+                raise Unknown("keyword argument of a local function")
+            bound[k.arg] = self.eval(k.value)
+        for n in names:
+            if n not in bound:
+                if n not in defaults:
+                    raise EvalRaise("TypeError", e)
+                bound[n] = Evaluator(lf.env, self.on_call, self.on_attr, self.on_subscript, self.on_store).eval(defaults[n])
+        env.update(bound)
+        sub = Evaluator(env, self.on_call, self.on_attr, self.on_subscript, self.on_store)
+        sub.loops, sub.with_binds_value, sub.globals_env, sub.on_name, sub.on_def = self.loops, self.with_binds_value, self.globals_env, self.on_name, self.on_def
+        sub.trace = self.trace
+        if isinstance(lf.node, ast.Lambda):
+            return sub.eval(lf.node.body)
+        try:
+            sub.run([st for st in lf.node.body if not (isinstance(st, ast.Expr) and isinstance(st.value, ast.Constant))])
+        except EvalReturn as r:
+            return r.value
+        return None
+
+    def _e_Lambda(self, e):
+        return LocalFunc(e, self.env)
 
     # ------------------------------------------------------------- statements
     def run(self, stmts: List[ast.stmt]) -> None:
@@ -449,6 +501,8 @@ class Evaluator:
             pass
         elif isinstance(s, ast.FunctionDef) and self.on_def is not None:
             self.env[s.name] = self.on_def(self, s)
+        elif isinstance(s, ast.FunctionDef) and not s.decorator_list:
+            self.env[s.name] = LocalFunc(s, self.env)
         elif isinstance(s, ast.Global) and self.globals_env is not None:
             self.global_names.update(s.names)
         elif isinstance(s, ast.For) and self.loops:
